@@ -3,6 +3,8 @@ from __future__ import annotations
 import json, os, sys, time
 
 VERIF = os.path.dirname(os.path.dirname(os.path.abspath(__file__)))
+# development only (seeded-change runs on scratch copies): evidence and replays go elsewhere
+OUT = os.environ.get("VERIF_OUT", VERIF)
 
 TRUSTED_BASE = [
     "A-SMT: z3 5.1 / cvc5 are sound (unsat answers accepted)",
@@ -16,7 +18,7 @@ TRUSTED_BASE = [
 
 
 def write_replay(prop, name, payload):
-    d = os.path.join(VERIF, "replays", prop)
+    d = os.path.join(OUT, "replays", prop)
     os.makedirs(d, exist_ok=True)
     safe = "".join(ch if ch.isalnum() or ch in "._-" else "_" for ch in name)[:150]
     path = os.path.join(d, safe + ".json")
@@ -212,8 +214,8 @@ def summarise(prop, tier, seed, contracts, grps, findings, res, wall, write_base
         old = set(json.load(open(bp)).get("discharged", [])) if os.path.exists(bp) else set()
         json.dump({"property": prop, "note": "obligations discharged on the unchanged tree; written by check.py --write-baseline only",
                    "discharged": sorted(old | set(discharged))}, open(bp, "w"), indent=0)
-    os.makedirs(os.path.join(VERIF, "evidence"), exist_ok=True)
-    with open(os.path.join(VERIF, "evidence", f"{prop}.json"), "w") as fjs:
+    os.makedirs(os.path.join(OUT, "evidence"), exist_ok=True)
+    with open(os.path.join(OUT, "evidence", f"{prop}.json"), "w") as fjs:
         json.dump(ev, fjs, indent=1, default=str)
     for l in lines:
         print(l)
